@@ -78,7 +78,8 @@ class Module(object):
         self.lines = src.splitlines()
         for n in ast.walk(tree):
             for c in ast.iter_child_nodes(n):
-                c._parent = n
+                if not isinstance(c, (ast.expr_context, ast.operator, ast.unaryop, ast.boolop, ast.cmpop)):
+                    c._parent = n
 
 
 class Ctx(object):
@@ -92,6 +93,8 @@ class Ctx(object):
         self._cfgs = {}
         self._cache = {}
         self.consulted = set()
+        self.normalise = os.environ.get('SA_NO_NORMALISE') != '1'
+        self.norm_stats = {}
         self.stats = {'files_parsed': 0, 'functions_seen': 0, 'cfg_built': 0, 'cfg_nodes': 0}
         if not os.path.isdir(self.pkg):
             raise AnalysisError('package directory %s not found' % self.pkg)
@@ -128,6 +131,14 @@ class Ctx(object):
                 tree = ast.parse(src, filename=path)
         except SyntaxError as e:
             raise AnalysisError('cannot parse %s: %s' % (rel, e))
+        if self.normalise:
+            from . import normalize
+            try:
+                normalize.normalize_module(name, tree, self.norm_stats)
+            except AnalysisError:
+                raise
+            except Exception as e:
+                raise AnalysisError('normalisation of %s failed: %s: %s' % (rel, type(e).__name__, e))
         m = Module(name, path, rel, src, tree)
         self._mods[name] = m
         self.consulted.add(rel)
